@@ -7,12 +7,27 @@ import (
 	"io"
 	"runtime"
 	"sync"
+	"syscall"
 	"time"
 
 	mqtt "github.com/at-wat/mqtt-go"
 )
 
 func runtimeGosched() { runtime.Gosched() }
+
+// spinRealMicros busy-waits on the real clock (time.Now is fake in a bubble).
+func spinRealMicros(us int64) {
+	var tv syscall.Timeval
+	syscall.Gettimeofday(&tv)
+	start := tv.Sec*1000000 + int64(tv.Usec)
+	for {
+		runtime.Gosched()
+		syscall.Gettimeofday(&tv)
+		if tv.Sec*1000000+int64(tv.Usec)-start >= us {
+			return
+		}
+	}
+}
 
 // Errors returned by the simulated transport.
 var (
@@ -233,6 +248,13 @@ func (c *Conn) Write(p []byte) (int, error) {
 	c.mu.Unlock()
 	if s.race {
 		runtimeGosched()
+		if len(p) >= 2048 {
+			// keep the transport busy for a while (real time): goroutines queueing
+			// for the library's write lock then wait long enough for sync.Mutex to
+			// hand the lock over directly, so a writer that releases the lock in the
+			// middle of a packet really loses it
+			spinRealMicros(300)
+		}
 	}
 	s.log(Rec{Kind: "write", Conn: c.k, N: w, V: int64(len(p))})
 	if ferr != nil {
